@@ -345,6 +345,122 @@ func c09Methods(s *source, fd *ast.FuncDecl) []string {
 	return out
 }
 
+// ---- round 5: whole if-return bodies as decision functions, forwarded argument lists ----
+
+func c09Results(s *source, r *ast.ReturnStmt) string {
+	var out []string
+	for _, x := range r.Results {
+		out = append(out, s.src(x))
+	}
+	return strings.Join(out, ", ")
+}
+
+// c09Body translates a function body of the form
+//
+//	[assignments / declarations]  { if COND { return E } }  ( return E | anything else )
+//
+// into `def <leanName> (params…) : Nat` = the INDEX of the return statement that is taken (the conditions are
+// translated with c09TranslateCond), and `<leanName>Returns : List String` = the returned expressions in that order
+// ("<continues>" when the function goes on with something that is not a return).  This pins, for all arguments,
+// which exit a call takes AND what each exit returns.
+func (e *emitter) c09Body(s *source, rel, goName, leanName string, params []c09Param) {
+	sig := ""
+	for _, p := range params {
+		t := map[string]string{"str": "String", "chr": "Char", "flag": "Bool", "nat": "Nat"}[p.kind]
+		sig += fmt.Sprintf(" (%s : %s)", p.name, t)
+	}
+	fail := func(msg string) {
+		e.errors = append(e.errors, msg)
+		e.printf("/-- MISSING: %s -/\ndef %s%s : Nat := 0\n\n", msg, leanName, sig)
+		e.stringList(leanName+"Returns", "MISSING", []string{"MISSING"})
+	}
+	fd := s.findFunc(rel, goName)
+	if fd == nil {
+		fail("function " + goName + " not found in " + rel)
+		return
+	}
+	var conds, rets []string
+	done := false
+	for _, st := range fd.Body.List {
+		if done {
+			break
+		}
+		switch x := st.(type) {
+		case *ast.IfStmt:
+			var ret *ast.ReturnStmt
+			if x.Init == nil && x.Else == nil && len(x.Body.List) == 1 {
+				ret, _ = x.Body.List[0].(*ast.ReturnStmt)
+			}
+			if ret == nil {
+				rets = append(rets, "<continues>")
+				done = true
+				break
+			}
+			c, err := c09TranslateCond(s, x.Cond, params)
+			if err != nil {
+				fail(leanName + ": " + err.Error())
+				return
+			}
+			conds = append(conds, c)
+			rets = append(rets, c09Results(s, ret))
+		case *ast.ReturnStmt:
+			rets = append(rets, c09Results(s, x))
+			done = true
+		case *ast.AssignStmt, *ast.DeclStmt:
+			if len(conds) > 0 {
+				rets = append(rets, "<continues>")
+				done = true
+			}
+		default:
+			rets = append(rets, "<continues>")
+			done = true
+		}
+	}
+	if !done {
+		rets = append(rets, "<falls off>")
+	}
+	body := ""
+	for i, c := range conds {
+		body += fmt.Sprintf("if %s then %d else ", c, i)
+	}
+	body += fmt.Sprint(len(conds))
+	e.printf("/-- which exit `%s` (%s) takes: index into `%sReturns` -/\ndef %s%s : Nat := %s\n\n", goName, rel, leanName, leanName, sig, body)
+	e.stringList(leanName+"Returns", "what the exits of `"+goName+"` return, in source order", rets)
+}
+
+// c09Calls emits every call of a function in source order (outer call before the calls in its arguments) as
+// (callee, [argument expressions]); an argument passed with `...` keeps the dots.  Function literals are entered.
+func (e *emitter) c09Calls(s *source, rel, goName, leanName string) {
+	fd := s.findFunc(rel, goName)
+	if fd == nil {
+		e.errors = append(e.errors, "function "+goName+" not found in "+rel)
+		e.printf("/-- MISSING -/\ndef %s : List (String × List String) := []\n\n", leanName)
+		return
+	}
+	var items []string
+	ast.Inspect(fd.Body, func(n ast.Node) bool {
+		c, ok := n.(*ast.CallExpr)
+		if !ok {
+			return true
+		}
+		var args []string
+		for i, a := range c.Args {
+			t := s.src(a)
+			if fl, ok := a.(*ast.FuncLit); ok {
+				t = "func" + s.src(fl.Type)[4:] + "{...}"
+			}
+			if i == len(c.Args)-1 && c.Ellipsis.IsValid() {
+				t += "..."
+			}
+			args = append(args, leanString(t))
+		}
+		items = append(items, fmt.Sprintf("(%s, [%s])", leanString(s.src(c.Fun)), strings.Join(args, ", ")))
+		return true
+	})
+	e.printf("/-- calls of `%s` in %s with their argument lists, in source order -/\ndef %s : List (String × List String) :=\n  [%s]\n\n",
+		goName, rel, leanName, strings.Join(items, ",\n   "))
+}
+
 func init() {
 	register("C09", func(s *source, e *emitter) {
 		const tree = "core/search/tree.go"
@@ -431,6 +547,42 @@ func init() {
 		e.c09Cond(s, pat, "patRouter.methodsAllowed", "condAllowedAny", c09If(2), []c09Param{{"allows", "nAllows", "nat"}})
 		e.c09Cond(s, pat, "validMethod", "condValidMethod", c09RetField(0, ""), []c09Param{str("method")})
 		e.c09Cond(s, eng, "engine.notFoundHandler", "condEngineNFCustom", c09If(1), []c09Param{{"next", "next", "flag"}})
+		// round 5: the remaining entry points (statement lists)
+		e.c09DetailDef(s, srv, "MustNewServer", "mustNewServerStmts")
+		e.c09DetailDef(s, srv, "Server.Start", "serverStartStmts")
+		e.c09DetailDef(s, srv, "Server.StartWithOpts", "serverStartWithOptsStmts")
+		e.c09DetailDef(s, srv, "Server.Use", "serverUseStmts")
+		e.c09DetailDef(s, srv, "WithRouter", "withRouterStmts")
+		e.c09DetailDef(s, srv, "handleError", "handleErrorStmts")
+		e.c09DetailDef(s, eng, "engine.use", "engineUseStmts")
+		e.c09DetailDef(s, eng, "engine.start", "engineStartStmts")
+		// round 5: whole if-return bodies as decision functions
+		e.c09Body(s, tree, "Tree.Add", "treeAddBody", []c09Param{str("route"), {"item", "item", "flag"}})
+		e.c09Body(s, tree, "Tree.Search", "treeSearchBody", []c09Param{str("route")})
+		e.c09Body(s, tree, "node.getChildren", "getChildrenBody", []c09Param{str("route")})
+		e.c09Body(s, tree, "match", "matchBody", []c09Param{str("pat")})
+		e.c09Body(s, pat, "patRouter.Handle", "handleBody", []c09Param{{"validMethod(method)", "valid", "flag"}, str("reqPath")})
+		e.c09Body(s, pv, "Vars", "pathvarVarsBody", []c09Param{{"ok", "ok", "flag"}})
+		e.c09Body(s, srv, "handleError", "handleErrorBody", []c09Param{{"err", "err", "flag"},
+			{"errors.Is(err, http.ErrServerClosed)", "closed", "flag"}})
+		e.c09Calls(s, eng, "engine.start", "engineStartCalls")
+		// round 5: forwarded argument lists of the delegating entry points
+		e.c09Calls(s, srv, "Server.AddRoute", "serverAddRouteCalls")
+		e.c09Calls(s, srv, "MustNewServer", "mustNewServerCalls")
+		e.c09Calls(s, srv, "Server.Start", "serverStartCalls")
+		e.c09Calls(s, srv, "Server.StartWithOpts", "serverStartWithOptsCalls")
+		e.c09Calls(s, srv, "Server.Use", "serverUseCalls")
+		e.c09Calls(s, eng, "engine.use", "engineUseCalls")
+		e.c09Calls(s, eng, "engine.bindRoutes", "engineBindRoutesCalls")
+		e.c09Calls(s, eng, "engine.bindFeaturedRoutes", "engineBindFeaturedCalls")
+		e.c09Calls(s, eng, "engine.bindRoute", "engineBindRouteCalls")
+		e.c09Calls(s, tree, "Tree.Add", "treeAddCalls")
+		e.c09Calls(s, tree, "Tree.Search", "treeSearchCalls")
+		e.c09Calls(s, pat, "patRouter.Handle", "handleCalls")
+		e.c09Calls(s, pat, "patRouter.ServeHTTP", "serveCalls")
+		e.c09Calls(s, pat, "patRouter.methodsAllowed", "methodsAllowedCalls")
+		e.c09Calls(s, pv, "Vars", "pathvarVarsCalls")
+		e.c09Calls(s, pv, "WithVars", "pathvarWithVarsCalls")
 		if fd := s.findFunc(pat, "validMethod"); fd != nil {
 			e.stringList("validMethodTests", "comparisons of `validMethod` in "+pat, c09Methods(s, fd))
 			e.c09DetailDef(s, pat, "validMethod", "validMethodStmts")
